@@ -57,7 +57,7 @@ def write(prop, mod, tier, seed, results, violations, known_hits, undecided, wal
         fns.append(dict(
             unit=u.name, kind=u.kind, function=u.fn, file=r.info.get('file'),
             lines=[r.info.get('line'), r.info.get('end_line')], body_sha256=r.info.get('sha256'),
-            instantiation=u.inst, encodes=u.says, backend='cvc5-intblast' if u.backend == 'ib' else 'cbmc-sat',
+            instantiation=u.inst, encodes=u.says, backend={'ib': 'cvc5-intblast (+ SAT refuter)', 'smt': 'cvc5 bit-vectors+arrays', 'sat': 'cbmc-sat'}[u.backend], decided_by=r.info.get('decided_by'),
             obligations=n, discharged=ok, by_class=by_cls, status=r.status, reason=r.reason,
             solver_s=round(r.solver_s, 2), wall_s=round(r.wall, 2),
             callees_replaced_by_contract=list(u.uses), callees_inlined=list(u.inline),
